@@ -54,6 +54,7 @@ TraceNext ==
          ELSE LET x == Apply(bm, e.op, e.a) IN
               /\ Judge("res" \in Check => NormRes(e.r) = x.r, "res", [exp |-> x.r])
               /\ Judge("state" \in Check => StateOK(x.bm, e), "state", [exp |-> x.bm])
+              /\ Judge("nopanic" \in Check => e.r.k # "panic", "nopanic", [exp |-> x.r])
               /\ bm' = Logged(e)
               /\ last' = [op |-> e.op, a |-> e.a, r |-> x.r]
     /\ l' = l + 1
